@@ -266,6 +266,7 @@ func (g *G) tritLane(n int) string {
 }
 
 func genC06(g *G) {
+	genGenCurl(g)
 	hists := 10
 	if g.thorough {
 		hists = 400
